@@ -266,10 +266,6 @@ fn run_program(ops: &[Op], n_gates: usize, mode: u64, variant: u64, rng: &mut Rn
                         }
                     }
                     ended = true;
-                    // a stream that has ended keeps reporting it
-                    if ask_terminated && !gen.is_terminated() {
-                        viol.push(("c13a-is-terminated-consistent".into(), "stream returned None but is_terminated() is false".into()));
-                    }
                 }
                 Ok(Poll::Pending) => {
                     log.borrow_mut().push(PEv::Pending);
@@ -457,7 +453,7 @@ pub fn run(args: &Args, r: &mut Report) {
         case.shape.push(format!("{:?}", case.script.gated));
         case.max_steps = 10_000;
         case.nontrivial = true;
-        let h = Hostile { ctl_budget: if start_mode { rng.usize(3) } else { 0 }, ctl_num: 1, ctl_den: 8, spurious: rng.bool(), multi_release: rng.bool() };
+        let h = Hostile { ctl_budget: if start_mode { rng.usize(3) } else { 0 }, ctl_num: 1, ctl_den: 8, spurious: rng.bool(), multi_release: rng.bool(), lag: rng.bool() };
         let run = run_hostile(&case, &mut rng, &h);
         r.eval(case.shape_key(), true);
         r.interleavings.insert(run.sig);
